@@ -1,9 +1,9 @@
 package props
 
 import (
-	"strconv"
 	"fmt"
 	"math/big"
+	"strconv"
 	"strings"
 
 	"gcacheck/internal/an"
@@ -670,6 +670,30 @@ func bitOrder(c *an.Ctx) {
 		handler := firstRepoCallee(p, h)
 		if handler == nil {
 			handler = h
+		}
+		// the bitfield may be built by a helper of the handler (reportsBitfield(reports)): use the function that holds the mask
+		hasMask := func(fn *ssa.Function) bool {
+			for _, b := range fn.Blocks {
+				for _, in := range b.Instrs {
+					if bo, ok := in.(*ssa.BinOp); ok && bo.Op.String() == "<<" {
+						return true
+					}
+				}
+			}
+			return false
+		}
+		if !hasMask(handler) {
+			for _, b := range handler.Blocks {
+				for _, in := range b.Instrs {
+					if call, ok := in.(*ssa.Call); ok {
+						if sc := call.Call.StaticCallee(); sc != nil && sc.Pkg == handler.Pkg && hasMask(sc) && strings.Contains(sc.Signature.Results().String(), "[504]byte") {
+							// its result must be what the handler puts into the reply: the only [504]byte source of the handler
+							handler = sc
+							c.Scope(sc)
+						}
+					}
+				}
+			}
 		}
 		check(handler, "server")
 		// set iff PowerOutput > 0
